@@ -173,19 +173,39 @@ def run_check(modname: str, tier: str, max_runs: int, chunk: int = 8,
     sim_wall = time.monotonic() - t0
     # ---------------------------------------------------------------- violations
     kit.load_celpy()
-    exit_code = 0
     n_viol = 0
     known_lines: List[str] = []
+    known_hits: Dict[str, int] = {}
     viol_lines: List[str] = []
-    seen_sigs: Dict[str, int] = {}
+    minimised_per_class: Dict[str, int] = {}
+    all_sigs: Dict[str, int] = {}
+    findings = [f for f in kit.load_known_findings() if f.get("property") == prop]
+
+    def attribute(trace: Dict[str, Any], v: Dict[str, Any]) -> Optional[str]:
+        """id of the listed finding this violation is an instance of, or None.  Decided by the
+        module (a counterfactual re-execution), never by the violation class alone."""
+        if not findings or not hasattr(mod, "attribute_known"):
+            return None
+        return mod.attribute_known(trace, v, findings)
+
     for item in sorted(violating, key=lambda x: x["seed"]):
-        for v in item["violations"][:1]:
+        trace = item["trace"]
+        for v in item["violations"]:
             sig_key = json.dumps(v["sig"], sort_keys=True)
-            seen_sigs[sig_key] = seen_sigs.get(sig_key, 0) + 1
-            if seen_sigs[sig_key] > 2:
-                continue  # same class already minimised twice in this batch
-            trace = item["trace"]
-            # confirm: replay from the trace in fresh children
+            all_sigs[sig_key] = all_sigs.get(sig_key, 0) + 1
+            try:
+                fid = attribute(trace, v)
+            except kit.HarnessError as ex:
+                harness_errors.append(f"attributing seed {item['seed']}: {ex}")
+                continue
+            if fid is not None:
+                known_hits[fid] = known_hits.get(fid, 0) + 1
+                continue
+            n_viol += 1
+            if minimised_per_class.get(sig_key, 0) >= 2:
+                continue  # this class was already confirmed, minimised and reported twice
+            minimised_per_class[sig_key] = minimised_per_class.get(sig_key, 0) + 1
+            # confirm: replay from the trace
             try:
                 again = mod.execute(trace)
             except kit.HarnessError as ex:
@@ -206,31 +226,42 @@ def run_check(modname: str, tier: str, max_runs: int, chunk: int = 8,
                     small, final, fv = trace, again, [x for x in again["violations"]
                                                       if x["sig"] == v["sig"]]
             except kit.HarnessError as ex:
+                kit.set_deadline(None)
                 harness_errors.append(f"minimising seed {item['seed']}: {ex}")
                 small, final = trace, again
                 fv = [x for x in again["violations"] if x["sig"] == v["sig"]]
             failure = dict(fv[0])
             failure["log"] = final.get("log")
-            known = kit.match_known(prop, mod.known_signature(small, failure)
-                                    if hasattr(mod, "known_signature") else failure["sig"])
             path = kit.write_replay(prop, item["seed"], small, failure)
-            if known is not None:
-                known_lines.append(f"KNOWN-FINDING: property={prop} {known['what']} "
-                                   f"(seed {item['seed']}, replay={path})")
-            else:
-                n_viol += 1
-                viol_lines.append(f"VIOLATION property={prop} replay={path}")
-                print(f"[{prop}] violation detail: {json.dumps(failure['sig'])} "
-                      f"seed={item['seed']}", flush=True)
-    for line in sorted(set(known_lines)):
+            viol_lines.append(f"VIOLATION property={prop} replay={path}")
+            print(f"[{prop}] violation detail: {json.dumps(failure['sig'])} "
+                  f"seed={item['seed']}", flush=True)
+    for k, n in sorted(all_sigs.items(), key=lambda kv: -kv[1])[:12]:
+        print(f"[{prop}] violation class x{n} (incl. instances of listed findings): {k}", flush=True)
+    # every listed finding is exercised by its own recorded probe trace, so that its
+    # KNOWN-FINDING line does not depend on the batch happening to hit it
+    for f in findings:
+        if "probe" not in f:
+            continue
+        try:
+            pres = mod.execute(f["probe"])
+            for v in pres["violations"]:
+                fid = attribute(f["probe"], v)
+                if fid == f["id"]:
+                    known_hits[fid] = known_hits.get(fid, 0) + 1
+                elif fid is None:
+                    n_viol += 1
+                    path = kit.write_replay(prop, 0, f["probe"], dict(v))
+                    viol_lines.append(f"VIOLATION property={prop} replay={path}")
+        except kit.HarnessError as ex:
+            harness_errors.append(f"probe of known finding {f['id']}: {ex}")
+    for f in findings:
+        if f["id"] in known_hits:
+            known_lines.append(f"KNOWN-FINDING: property={prop} {f['what']}")
+    for line in known_lines:
         print(line)
     for line in viol_lines:
         print(line)
-    # listed findings that did not show up in this batch are still announced (they are recorded
-    # defects of the tree, not of this batch) -- only if the finding's own probe reproduces it.
-    if hasattr(mod, "probe_known_findings"):
-        for line in mod.probe_known_findings(set(known_lines)):
-            print(line)
 
     wall_s = time.monotonic() - t0
     per_hour = runs / sim_wall * 3600 if sim_wall > 0 else 0
@@ -254,7 +285,7 @@ def run_check(modname: str, tier: str, max_runs: int, chunk: int = 8,
         "faults_fired": {k: v for k, v in sorted(agg_stats.items()) if k.startswith("fault_")},
         "probes": {k: v for k, v in sorted(agg_stats.items()) if k.startswith("probe_")},
         "components": getattr(mod, "COMPONENTS", {}),
-        "known_findings_matched": sorted(set(known_lines)),
+        "known_findings_matched": dict(sorted(known_hits.items())),
         "harness_errors": harness_errors[:10],
         "workers": kit.CPUS,
     }
@@ -279,7 +310,7 @@ def run_check(modname: str, tier: str, max_runs: int, chunk: int = 8,
     kit.write_evidence(prop, tier, bseed, coverage, wall_s, n_viol, mod.ASSUMPTIONS)
     print(f"[{prop}] runs={runs} distinct_nontrivial={len(digests_nontrivial)} "
           f"states={len(states)} transitions={len(transitions)} violations={n_viol} "
-          f"known={len(set(known_lines))} harness_errors={len(harness_errors)} "
+          f"known={len(known_hits)} harness_errors={len(harness_errors)} "
           f"wall={wall_s:.1f}s ({int(per_hour)} runs/h)", flush=True)
     if harness_errors:
         for h in harness_errors[:5]:
@@ -290,7 +321,7 @@ def run_check(modname: str, tier: str, max_runs: int, chunk: int = 8,
         return 2
     if n_viol:
         return 1
-    return exit_code
+    return 0
 
 
 def replay(modname: str, path: str) -> int:
